@@ -7,6 +7,7 @@ arithmetic), `Schc.Spec.crcBitwise` (RFC 9260 appendix A, bit by bit).
 -/
 import Schc.Proofs.Checksum
 import Schc.Proofs.SortUnique
+import Schc.Proofs.SortForward
 import Schc.Py.Core
 
 namespace Schc
@@ -166,6 +167,27 @@ theorem C09_order_test_covers_directions (r : Rule) (d : Option Dir) (h : r.orde
   | some .up => exact h.1.1.2
   | some .dw => exact h.1.2
   | some .bi => exact h.2
+
+/-- The driver's test never fires inside the properties' quantifiers: a rule whose compute fields are written in
+    dependency order — none before a compute field it depends on, none depending on itself — passes it, for the rule as
+    written and for what every `direction=` keeps of it. -/
+theorem C09_order_test_passes (r : Rule)
+    (hf : ForwardDeps ((r.fields.filter (fun rf => decide (rf.cda = .compute))).map (·.id))) : r.orderOkAll = true :=
+  orderOkAll_of_forward r hf
+
+/-- the computable fields in the order the protocols lay them out (IPv6 or IPv4, then UDP or SCTP) -/
+def protocolOrder : List String :=
+  ["IPv6:Payload Length", "IPv4:Total Length", "IPv4:Header Checksum", "UDP:Length", "UDP:Checksum", "SCTP:Checksum"]
+
+/-- … are in dependency order for the dependency sets read from the source (kernel-evaluated on the regenerated table) -/
+theorem C09_protocol_order_forward : ForwardDeps protocolOrder := by
+  unfold ForwardDeps NoDep protocolOrder
+  exact ⟨by decide +kernel, by decide +kernel⟩
+
+/-- … so every rule whose compute fields follow the protocol layout (any subset, other descriptors anywhere) passes the test -/
+theorem C09_order_test_passes_protocol (r : Rule)
+    (h : ((r.fields.filter (fun rf => decide (rf.cda = .compute))).map (·.id)).Sublist protocolOrder) : r.orderOkAll = true :=
+  C09_order_test_passes r (ForwardDeps.sublist h C09_protocol_order_forward)
 
 /-- non-vacuity, both ways: lengths and checksums in protocol order are ordered consistently; a header checksum BEFORE a UDP
     length BEFORE the total length the checksum depends on is a cycle (each precedes the next), which the test rejects -/
